@@ -37,6 +37,10 @@ func ReducedSentences() []string {
 		out = append(out, "$[?(!"+l+")]")
 		out = append(out, "$[?(! "+l+")]")
 	}
+	// a function name is what was registered, letter for letter
+	for _, n := range []string{"F1", "G1", "Fre", "FNEST", "f1 ", "F2", "gID"} {
+		out = append(out, "$.a."+n+"()", "$.*."+n+"()", "$[?(@.a."+n+"() == 1)]")
+	}
 	// names a library might be tempted to know by itself: only registered functions exist
 	for _, n := range BuiltinLookingNames {
 		out = append(out, "$.a."+n+"()", "$.*."+n+"()", "$[?(@.a."+n+"() == 1)]", "$.a.f1()."+n+"()")
@@ -74,7 +78,7 @@ var Vocabulary = []string{
 	"\\u0041", "\\ud800", "\\n", "\\'", "\\\\", "é", "😀", "\x00", "\x7f", "[*]", "['a']", "[0]", "[0:1]", "[::2]", "[(1)]",
 	"9223372036854775807", "-9223372036854775808", "9223372036854775808", "2147483648", "-2147483649", "99999999999999999999",
 	"1e400", "['a','b']", "[?(@.a)]", "[?(@.a == 1)]", "@.a", "$.a", "..a", ".a",
-	"%", "%s", "%d", "%!", "%%", "%v", "100%", "[(@.length)]", "[(@.length-1)]", "(@.length", "@.length", "[(", ")]", "[-0]", "[-0:]", "[:-0]", "-0", "-00",
+	".F1()", ".G1()", ".Fre()", "%", "%s", "%d", "%!", "%%", "%v", "100%", "[(@.length)]", "[(@.length-1)]", "(@.length", "@.length", "[(", ")]", "[-0]", "[-0:]", "[:-0]", "-0", "-00",
 	".count()", ".sum()", ".avg()", ".min()", ".max()", ".median()", ".length()", ".len()", ".size()", ".keys()", ".values()", ".first()", ".last()", ".type()", ".match()", ".value()",
 	"=~/^/", "=~/$/", "=~//", "=~ / /", "\\ud834'", "\\udd1e\"", "\\\"", "\\\\'", "‘", "’", "“", "”", "\u00a0", "\u3000", "\ufeff",
 }
